@@ -34,6 +34,14 @@ def segment_leg(ctx, thorough):
         futs = [ex.submit(ctx.model_check, "MCSegmentLifecycle", c, expect="violation", timeout=900, workers=4) for c in DEVIATIONS]
         for f in futs:
             f.result()
+    # M, unbounded in the number of steps: an inductive invariant of the repaired design (7 segment objects, 7 family objects,
+    # 6 rows, 2 writers) discharged by Apalache; it must have models with an evicted object held by a writer, and the
+    # inductive step must fail for the code before the repair 129c8b7
+    ctx.apalache("SegmentLifecycleInd", "Init", "IndInv", 0)
+    ctx.apalache("SegmentLifecycleInd", "IndInit", "IndInv", 1)
+    ctx.apalache("SegmentLifecycleInd", "IndInit", "Safety", 0)
+    ctx.apalache("SegmentLifecycleInd", "IndInit", "NotVacuous", 0, expect="violation")
+    ctx.apalache("SegmentLifecycleInd", "IndInit", "IndInv", 1, cinit="CInitOrphan", expect="violation")
     # T: the real segments of a real shard
     tr = os.path.join(ctx.scratch, "seglife.ndjson")
     nh, steps = (600, 30) if thorough else (80, 20)
